@@ -51,7 +51,12 @@ def _first_rule_stats(ctx):
         except OSError:
             continue
         declared |= set(re.findall(r'"([a-z_0-9]+\.[a-z_0-9]+)"', src))
-    fired = set(r.replace("_out_of_range_out_of_range", "_out_of_range") for r in rules)
+    fired = set()
+    for r in rules:
+        fired.add(r)
+        for suf in ("_out_of_range_out_of_range", "_out_of_range"):   # `idx` appends " out of range" to the rule name
+            if r.endswith(suf):
+                fired.add(r[:-len(suf)]); fired.add(r[:-len(suf)] + "_out_of_range")
     never = sorted(d for d in declared if d not in fired)
     return dict(rules_declared_in_S=len(declared), rules_never_first=never,
                 rules_never_first_explained={r: UNREACHABLE_RULES.get(r, "reachable: not hit by this run's sample") for r in never}, rejections_by_first_rule=dict(sorted(rules.items(), key=lambda kv: (-kv[1], kv[0]))),
